@@ -183,6 +183,103 @@ func TestVerifC32_DataSplit(t *testing.T) {
 		})
 }
 
+// Concurrent callers on one shared packer (the resolvers share one data packer between the goroutines that serve
+// requests): every caller must get chunks that unpack to its own input. No timing oracle: results are judged after
+// all goroutines have joined.
+func TestVerifC32_ConcurrentCallers(t *testing.T) {
+	m := &marshal.GogoProtoMarshalizer{}
+	kit.Run(t, "C32", kit.Budget{Quick: 400, Thorough: 4000},
+		"one shared SimpleDataPacker and one shared SizeDataPacker, warmed up by a first call, then 2-8 goroutines behind a barrier each packing its own generated list 3-10 times; after the join every result must unpack to the caller's own input; non-trivial = >= 3 goroutines with >= 2 multi-element lists",
+		func(rt *rapid.T, c *kit.Case) {
+			simple, _ := partitioning.NewSimpleDataPacker(m)
+			size, _ := partitioning.NewSizeDataPacker(m)
+			warm, wl := verifC32GenList(rt)
+			_, _ = simple.PackDataInChunks(warm, wl)
+			_, _ = size.PackDataInChunks(warm, wl)
+			n := rapid.IntRange(2, 8).Draw(rt, "goroutines")
+			type job struct {
+				data   [][]byte
+				limit  int
+				rounds int
+				bad    string
+			}
+			jobs := make([]*job, n)
+			multi := 0
+			for i := range jobs {
+				d, l := verifC32GenList(rt)
+				if l > 4096 {
+					l = 200
+				}
+				// make the lists distinguishable between goroutines
+				for _, e := range d {
+					if len(e) > 0 {
+						e[0] = byte(i + 1)
+					}
+				}
+				if len(d) >= 2 {
+					multi++
+				}
+				jobs[i] = &job{data: d, limit: l, rounds: rapid.IntRange(3, 10).Draw(rt, "rounds")}
+			}
+			barrier := make(chan struct{})
+			done := make(chan struct{}, n)
+			for i := range jobs {
+				go func(j *job) {
+					defer func() {
+						if r := recover(); r != nil {
+							j.bad = fmt.Sprintf("panic: %v", r)
+						}
+						done <- struct{}{}
+					}()
+					<-barrier
+					for r := 0; r < j.rounds && j.bad == ""; r++ {
+						for pi, pk := range []func([][]byte, int) ([][]byte, error){simple.PackDataInChunks, size.PackDataInChunks} {
+							chunks, err := pk(j.data, j.limit)
+							if err != nil {
+								j.bad = fmt.Sprintf("packer %d: unexpected error %v", pi, err)
+								break
+							}
+							var got [][]byte
+							for _, ch := range chunks {
+								b := &batch.Batch{}
+								if err := m.Unmarshal(b, ch); err != nil {
+									j.bad = fmt.Sprintf("packer %d: chunk does not decode: %v", pi, err)
+									break
+								}
+								got = append(got, b.Data...)
+							}
+							if j.bad != "" {
+								break
+							}
+							if len(got) != len(j.data) {
+								j.bad = fmt.Sprintf("packer %d round %d: unpacked %d elements, input had %d (lens %v)", pi, r, len(got), len(j.data), verifC32Lens(j.data))
+								break
+							}
+							for k := range got {
+								if !bytes.Equal(got[k], j.data[k]) {
+									j.bad = fmt.Sprintf("packer %d round %d: element %d differs from the caller's input (lens %v)", pi, r, k, verifC32Lens(j.data))
+									break
+								}
+							}
+						}
+					}
+				}(jobs[i])
+			}
+			close(barrier)
+			for range jobs {
+				<-done
+			}
+			if n >= 3 && multi >= 2 {
+				c.NonTrivial(fmt.Sprint("conc", n, multi, verifC32Lens(jobs[0].data), verifC32Lens(jobs[1].data)))
+			}
+			for i, j := range jobs {
+				if j.bad != "" {
+					c.Violation("C32:concurrent:result-not-callers-input", "goroutine %d of %d (limit %d): %s", i, n, j.limit, j.bad)
+				}
+			}
+		})
+}
+
 // regression: the shrunk counterexample of the SizeDataPacker defect (three 10-byte elements, limit 20).
 func TestVerifC32_Regress(t *testing.T) {
 	kit.Silence()
